@@ -81,6 +81,17 @@ def run_seq(ctx, s, mod, dem, bits, cell, via, layout):
                   "hard demodulation of the noiselessly modulated symbols differs from the input bits", CHK)
     ctx.nontrivial(cell, via, bits.tobytes())
     ctx.cls("layout_" + layout)
+    # the same bits as int64: the same symbols
+    if layout in ("batch_all", "generated_batch", "cross_instance_forward") and s["scheme"] != "identity":
+        mc.reset(mod, dem)
+        try:
+            yi = mod(torch.from_numpy(bits.astype(np.int64)))
+        except Exception:
+            ctx.cls("int64_bits_rejected")
+            return
+        ctx.ev()
+        ctx.check(tuple(yi.shape) == tuple(y.shape) and bool(torch.allclose(yi.to(torch.complex64) if not yi.is_complex() else yi, y.to(torch.complex64) if not y.is_complex() else y)),
+                  "C05.dtype_independent", cell, {**case, "dtype": "int64"}, None, None, "modulating the same bits given as int64 gives other symbols", CHK)
 
 
 def check_case(ctx, cell, case):
